@@ -92,7 +92,11 @@ func toolMain(args []string) error {
 		if kind == "sc" {
 			var items []string
 			for i := 0; i < plan.N; i++ {
-				items = append(items, fmt.Sprintf(`{"file":"-","line":%d,"endLine":%d,"column":1,"endColumn":2,"level":"warning","code":%d,"message":"issue %d of %s."}`, i+1, i+1, 2000+i, i, tok)) // the first issue is at the injected setup line
+				file := "-"
+				if i == 1 {
+					file = "./lib/common.sh" // an issue in a file followed via `source` (-x) is an issue the tool printed
+				}
+				items = append(items, fmt.Sprintf(`{"file":"%s","line":%d,"endLine":%d,"column":1,"endColumn":2,"level":"warning","code":%d,"message":"issue %d of %s."}`, file, i+1, i+1, 2000+i, i, tok)) // the first issue is at the injected setup line
 			}
 			fmt.Print("[" + strings.Join(items, ",") + "]")
 		} else {
